@@ -27,6 +27,11 @@ pub struct MessageParser<'a> {
 impl<'a> MessageParser<'a> {
     /// Create a new message parser
     pub fn new(input: &'a str, message_type: &str) -> Self {
+        #[cfg(swiftmt_verif)]
+        super::verif_trace::emit(
+            "new",
+            &[("mt", message_type.into()), ("len", input.len().into())],
+        );
         Self {
             input,
             position: 0,
@@ -39,6 +44,8 @@ impl<'a> MessageParser<'a> {
     /// Enable or disable duplicate field handling
     pub fn with_duplicates(mut self, allow: bool) -> Self {
         self.allow_duplicates = allow;
+        #[cfg(swiftmt_verif)]
+        super::verif_trace::emit("dup", &[("allow", allow.into())]);
         self
     }
 
@@ -48,6 +55,8 @@ impl<'a> MessageParser<'a> {
 
         // Try to parse the field
         T::parse(&field_content).map_err(|e| {
+            #[cfg(swiftmt_verif)]
+            super::verif_trace::emit("invalid", &[("tag", tag.into())]);
             ParseError::InvalidFieldFormat(Box::new(InvalidFieldFormatError {
                 field_tag: tag.to_string(),
                 component_name: "field".to_string(),
@@ -74,6 +83,8 @@ impl<'a> MessageParser<'a> {
         match self.extract_field(tag, true) {
             Ok(content) => {
                 let parsed = T::parse(&content).map_err(|e| {
+                    #[cfg(swiftmt_verif)]
+                    super::verif_trace::emit("invalid", &[("tag", tag.into())]);
                     ParseError::InvalidFieldFormat(Box::new(InvalidFieldFormatError {
                         field_tag: tag.to_string(),
                         component_name: "field".to_string(),
@@ -96,6 +107,8 @@ impl<'a> MessageParser<'a> {
         // Keep parsing until no more instances found
         while let Ok(content) = self.extract_field(tag, true) {
             let parsed = T::parse(&content).map_err(|e| {
+                #[cfg(swiftmt_verif)]
+                super::verif_trace::emit("invalid", &[("tag", tag.into())]);
                 ParseError::InvalidFieldFormat(Box::new(InvalidFieldFormatError {
                     field_tag: tag.to_string(),
                     component_name: "field".to_string(),
@@ -120,6 +133,8 @@ impl<'a> MessageParser<'a> {
 
         // Use parse_with_variant for enum fields
         T::parse_with_variant(&field_content, Some(&variant), Some(base_tag)).map_err(|e| {
+            #[cfg(swiftmt_verif)]
+            super::verif_trace::emit("invalid", &[("tag", full_tag.as_str().into())]);
             ParseError::InvalidFieldFormat(Box::new(InvalidFieldFormatError {
                 field_tag: full_tag,
                 component_name: "field".to_string(),
@@ -142,6 +157,11 @@ impl<'a> MessageParser<'a> {
                 if let Ok(content) = self.extract_field(&full_tag, true) {
                     let parsed = T::parse_with_variant(&content, Some(&variant), Some(base_tag))
                         .map_err(|e| {
+                            #[cfg(swiftmt_verif)]
+                            super::verif_trace::emit(
+                                "invalid",
+                                &[("tag", full_tag.as_str().into())],
+                            );
                             ParseError::InvalidFieldFormat(Box::new(InvalidFieldFormatError {
                                 field_tag: full_tag,
                                 component_name: "field".to_string(),
@@ -164,6 +184,18 @@ impl<'a> MessageParser<'a> {
     fn extract_field(&mut self, tag: &str, optional: bool) -> Result<String, ParseError> {
         // Check for duplicates if not allowed
         if !self.allow_duplicates && self.fields_seen.contains(tag) && !optional {
+            #[cfg(swiftmt_verif)]
+            super::verif_trace::emit(
+                "extract",
+                &[
+                    ("tag", tag.into()),
+                    ("optional", optional.into()),
+                    ("pos0", self.position.into()),
+                    ("found", (-1).into()),
+                    ("pos1", self.position.into()),
+                    ("res", "duplicate".into()),
+                ],
+            );
             return Err(ParseError::InvalidFormat {
                 message: format!("Duplicate field: {}", tag),
             });
@@ -174,6 +206,25 @@ impl<'a> MessageParser<'a> {
 
         match extract_result {
             Some((content, consumed)) => {
+                #[cfg(swiftmt_verif)]
+                super::verif_trace::emit(
+                    "extract",
+                    &[
+                        ("tag", tag.into()),
+                        ("optional", optional.into()),
+                        ("pos0", self.position.into()),
+                        (
+                            "found",
+                            self.input[self.position..]
+                                .find(&format!(":{}:", tag))
+                                .map(|o| (o + self.position) as i64)
+                                .unwrap_or(-1)
+                                .into(),
+                        ),
+                        ("pos1", (self.position + consumed).into()),
+                        ("res", "found".into()),
+                    ],
+                );
                 self.position += consumed;
                 // Only track fields if duplicates are not allowed
                 if !self.allow_duplicates {
@@ -182,6 +233,18 @@ impl<'a> MessageParser<'a> {
                 Ok(content)
             }
             None => {
+                #[cfg(swiftmt_verif)]
+                super::verif_trace::emit(
+                    "extract",
+                    &[
+                        ("tag", tag.into()),
+                        ("optional", optional.into()),
+                        ("pos0", self.position.into()),
+                        ("found", (-1).into()),
+                        ("pos1", self.position.into()),
+                        ("res", "notfound".into()),
+                    ],
+                );
                 if optional {
                     // For optional fields, just return a format error that will be caught
                     Err(ParseError::InvalidFormat {
@@ -213,15 +276,42 @@ impl<'a> MessageParser<'a> {
         for variant in common_variants {
             let full_tag = format!("{}{}", base_tag, variant);
             if trimmed.starts_with(&format!(":{}:", full_tag)) {
+                #[cfg(swiftmt_verif)]
+                super::verif_trace::emit(
+                    "variant",
+                    &[
+                        ("base", base_tag.into()),
+                        ("pos0", self.position.into()),
+                        ("res", full_tag.as_str().into()),
+                    ],
+                );
                 return Ok(variant.to_string());
             }
         }
 
         // Also check for no-variant version (just the base tag)
         if trimmed.starts_with(&format!(":{}:", base_tag)) {
+            #[cfg(swiftmt_verif)]
+            super::verif_trace::emit(
+                "variant",
+                &[
+                    ("base", base_tag.into()),
+                    ("pos0", self.position.into()),
+                    ("res", base_tag.into()),
+                ],
+            );
             return Ok(String::new());
         }
 
+        #[cfg(swiftmt_verif)]
+        super::verif_trace::emit(
+            "variant",
+            &[
+                ("base", base_tag.into()),
+                ("pos0", self.position.into()),
+                ("res", "none".into()),
+            ],
+        );
         Err(ParseError::MissingRequiredField {
             field_tag: base_tag.to_string(),
             field_name: base_tag.to_string(),
@@ -245,15 +335,42 @@ impl<'a> MessageParser<'a> {
         for variant in common_variants {
             let full_tag = format!("{}{}", base_tag, variant);
             if trimmed.starts_with(&format!(":{}:", full_tag)) {
+                #[cfg(swiftmt_verif)]
+                super::verif_trace::emit(
+                    "variant",
+                    &[
+                        ("base", base_tag.into()),
+                        ("pos0", self.position.into()),
+                        ("res", full_tag.as_str().into()),
+                    ],
+                );
                 return Some(variant.to_string());
             }
         }
 
         // Check for no-variant version
         if trimmed.starts_with(&format!(":{}:", base_tag)) {
+            #[cfg(swiftmt_verif)]
+            super::verif_trace::emit(
+                "variant",
+                &[
+                    ("base", base_tag.into()),
+                    ("pos0", self.position.into()),
+                    ("res", base_tag.into()),
+                ],
+            );
             return Some(String::new());
         }
 
+        #[cfg(swiftmt_verif)]
+        super::verif_trace::emit(
+            "variant",
+            &[
+                ("base", base_tag.into()),
+                ("pos0", self.position.into()),
+                ("res", "none".into()),
+            ],
+        );
         None
     }
 
@@ -269,6 +386,20 @@ impl<'a> MessageParser<'a> {
 
     /// Check if we've reached the end of input
     pub fn is_complete(&self) -> bool {
+        #[cfg(swiftmt_verif)]
+        super::verif_trace::emit(
+            "complete",
+            &[
+                ("pos0", self.position.into()),
+                (
+                    "res",
+                    (self.position >= self.input.len()
+                        || self.input[self.position..].trim().is_empty()
+                        || self.input[self.position..].trim() == "-")
+                        .into(),
+                ),
+            ],
+        );
         self.position >= self.input.len()
             || self.remaining().trim().is_empty()
             || self.remaining().trim() == "-"
@@ -278,6 +409,15 @@ impl<'a> MessageParser<'a> {
     pub fn detect_field(&self, tag: &str) -> bool {
         let remaining = self.remaining();
         let trimmed = remaining.trim_start_matches(|c: char| c.is_whitespace());
+        #[cfg(swiftmt_verif)]
+        super::verif_trace::emit(
+            "detect",
+            &[
+                ("tag", tag.into()),
+                ("pos0", self.position.into()),
+                ("res", trimmed.starts_with(&format!(":{}:", tag)).into()),
+            ],
+        );
         trimmed.starts_with(&format!(":{}:", tag))
     }
 
@@ -294,6 +434,15 @@ impl<'a> MessageParser<'a> {
         ] {
             let search_pattern = format!(":{}{}:", base_tag, variant);
             if trimmed.starts_with(&search_pattern) {
+                #[cfg(swiftmt_verif)]
+                super::verif_trace::emit(
+                    "variant",
+                    &[
+                        ("base", base_tag.into()),
+                        ("pos0", self.position.into()),
+                        ("res", format!("{}{}", base_tag, variant).into()),
+                    ],
+                );
                 return Some(variant.to_string());
             }
         }
@@ -301,9 +450,27 @@ impl<'a> MessageParser<'a> {
         // Check for field without variant (e.g., :50:)
         let search_pattern = format!(":{}:", base_tag);
         if trimmed.starts_with(&search_pattern) {
+            #[cfg(swiftmt_verif)]
+            super::verif_trace::emit(
+                "variant",
+                &[
+                    ("base", base_tag.into()),
+                    ("pos0", self.position.into()),
+                    ("res", base_tag.into()),
+                ],
+            );
             return Some("".to_string()); // No variant
         }
 
+        #[cfg(swiftmt_verif)]
+        super::verif_trace::emit(
+            "variant",
+            &[
+                ("base", base_tag.into()),
+                ("pos0", self.position.into()),
+                ("res", "none".into()),
+            ],
+        );
         None
     }
 }
